@@ -337,12 +337,7 @@ func runWith(f *Fed, in FedInput, timeout time.Duration) Outcome {
 		d, e := f.GW.Execute(rc, plans)
 		ch <- Outcome{Data: d, Err: e, Plans: plans}
 	}()
-	select {
-	case r := <-ch:
-		return r
-	case <-time.After(timeout):
-		return Outcome{Hung: true}
-	}
+	return awaitOutcome(ch, timeout)
 }
 
 func init() { Runners["C05"] = c05{} }
